@@ -354,7 +354,7 @@ func instEcalli(interp *Interpreter, pc ProgramCounter, skipLength ProgramCounte
 	lX := min(4, int(skipLength))
 
 	// zeta_{iota+1,...,lX}
-	instLength := interp.Program.InstructionData[pc+1 : pc+ProgramCounter(lX)+1]
+	instLength := interp.Program.operandCode()[pc+1 : pc+ProgramCounter(lX)+1]
 	x, err := utils.DeserializeFixedLength(types.ByteSequence(instLength), types.U64(lX))
 	if err != nil {
 		pvmLogger.Errorf("instEcalli deserialization error: %v", err)
@@ -371,9 +371,9 @@ func instEcalli(interp *Interpreter, pc ProgramCounter, skipLength ProgramCounte
 
 // opcode 20
 func instLoadImm64(interp *Interpreter, pc ProgramCounter, skipLength ProgramCounter) (ExitReason, ProgramCounter) {
-	rA := min(12, (int(interp.Program.InstructionData[pc+1]) % 16))
+	rA := min(12, (int(interp.Program.operandCode()[pc+1]) % 16))
 	// zeta_{iota+2,...,+8}
-	instLength := interp.Program.InstructionData[pc+2 : pc+10]
+	instLength := interp.Program.operandCode()[pc+2 : pc+10]
 	nuX, err := utils.DeserializeFixedLength(types.ByteSequence(instLength), types.U64(8))
 	if err != nil {
 		pvmLogger.Errorf("insLoadImm64 deserialization raise error: %v", err)
@@ -385,7 +385,7 @@ func instLoadImm64(interp *Interpreter, pc ProgramCounter, skipLength ProgramCou
 
 // opcode 30
 func instStoreImmU8(interp *Interpreter, pc ProgramCounter, skipLength ProgramCounter) (ExitReason, ProgramCounter) {
-	vx, vy, err := decodeTwoImmediates(interp.Program.InstructionData, pc, skipLength)
+	vx, vy, err := decodeTwoImmediates(interp.Program.operandCode(), pc, skipLength)
 	if err != nil {
 		pvmLogger.Errorf("instStoreImmU8 decodeTwoImmediates error: %v", err)
 		return ExitPanic, pc
@@ -398,7 +398,7 @@ func instStoreImmU8(interp *Interpreter, pc ProgramCounter, skipLength ProgramCo
 
 // opcode 31
 func instStoreImmU16(interp *Interpreter, pc ProgramCounter, skipLength ProgramCounter) (ExitReason, ProgramCounter) {
-	vx, vy, err := decodeTwoImmediates(interp.Program.InstructionData, pc, skipLength)
+	vx, vy, err := decodeTwoImmediates(interp.Program.operandCode(), pc, skipLength)
 	if err != nil {
 		pvmLogger.Errorf("instStoreImmU16 decodeTwoImmediates error: %v", err)
 		return ExitPanic, pc
@@ -411,7 +411,7 @@ func instStoreImmU16(interp *Interpreter, pc ProgramCounter, skipLength ProgramC
 
 // opcode 32
 func instStoreImmU32(interp *Interpreter, pc ProgramCounter, skipLength ProgramCounter) (ExitReason, ProgramCounter) {
-	vx, vy, err := decodeTwoImmediates(interp.Program.InstructionData, pc, skipLength)
+	vx, vy, err := decodeTwoImmediates(interp.Program.operandCode(), pc, skipLength)
 	if err != nil {
 		pvmLogger.Errorf("instStoreImmU32 decodeTwoImmediates error: %v", err)
 		return ExitPanic, pc
@@ -424,7 +424,7 @@ func instStoreImmU32(interp *Interpreter, pc ProgramCounter, skipLength ProgramC
 
 // opcode 33
 func instStoreImmU64(interp *Interpreter, pc ProgramCounter, skipLength ProgramCounter) (ExitReason, ProgramCounter) {
-	vx, vy, err := decodeTwoImmediates(interp.Program.InstructionData, pc, skipLength)
+	vx, vy, err := decodeTwoImmediates(interp.Program.operandCode(), pc, skipLength)
 	if err != nil {
 		pvmLogger.Errorf("instStoreImmU64 decodeTwoImmediates error: %v", err)
 		return ExitPanic, pc
@@ -436,7 +436,7 @@ func instStoreImmU64(interp *Interpreter, pc ProgramCounter, skipLength ProgramC
 
 // opcode 40
 func instJump(interp *Interpreter, pc ProgramCounter, skipLength ProgramCounter) (ExitReason, ProgramCounter) {
-	vX, err := decodeOneOffset(interp.Program.InstructionData, pc, skipLength)
+	vX, err := decodeOneOffset(interp.Program.operandCode(), pc, skipLength)
 	if err != nil {
 		pvmLogger.Errorf("instJump decodeOneOffset error: %v", err)
 		return ExitPanic, pc
@@ -453,7 +453,7 @@ func instJump(interp *Interpreter, pc ProgramCounter, skipLength ProgramCounter)
 
 // opcode 50
 func instJumpInd(interp *Interpreter, pc ProgramCounter, skipLength ProgramCounter) (ExitReason, ProgramCounter) {
-	rA, vX, err := decodeOneRegisterAndOneImmediate(interp.Program.InstructionData, pc, skipLength)
+	rA, vX, err := decodeOneRegisterAndOneImmediate(interp.Program.operandCode(), pc, skipLength)
 	if err != nil {
 		pvmLogger.Errorf("instJumpInd decodeOneRegisterAndOneImmediate error: %v", err)
 		return ExitHalt, pc
@@ -476,7 +476,7 @@ func instJumpInd(interp *Interpreter, pc ProgramCounter, skipLength ProgramCount
 
 // opcode 51
 func instLoadImm(interp *Interpreter, pc ProgramCounter, skipLength ProgramCounter) (ExitReason, ProgramCounter) {
-	rA, vX, err := decodeOneRegisterAndOneImmediate(interp.Program.InstructionData, pc, skipLength)
+	rA, vX, err := decodeOneRegisterAndOneImmediate(interp.Program.operandCode(), pc, skipLength)
 	if err != nil {
 		pvmLogger.Errorf("instLoadImm decodeOneRegisterAndOneImmediate error: %v", err)
 		return ExitHalt, pc
@@ -488,7 +488,7 @@ func instLoadImm(interp *Interpreter, pc ProgramCounter, skipLength ProgramCount
 
 // opcode 52
 func instLoadU8(interp *Interpreter, pc ProgramCounter, skipLength ProgramCounter) (ExitReason, ProgramCounter) {
-	rA, vX, err := decodeOneRegisterAndOneImmediate(interp.Program.InstructionData, pc, skipLength)
+	rA, vX, err := decodeOneRegisterAndOneImmediate(interp.Program.operandCode(), pc, skipLength)
 	if err != nil {
 		pvmLogger.Errorf("instLoadU8 decodeOneRegisterAndOneImmediate error: %v", err)
 		return ExitHalt, pc
@@ -506,7 +506,7 @@ func instLoadU8(interp *Interpreter, pc ProgramCounter, skipLength ProgramCounte
 
 // opcode 53
 func instLoadI8(interp *Interpreter, pc ProgramCounter, skipLength ProgramCounter) (ExitReason, ProgramCounter) {
-	rA, vX, err := decodeOneRegisterAndOneImmediate(interp.Program.InstructionData, pc, skipLength)
+	rA, vX, err := decodeOneRegisterAndOneImmediate(interp.Program.operandCode(), pc, skipLength)
 	if err != nil {
 		pvmLogger.Errorf("instLoadI8 decodeOneRegisterAndOneImmediate error: %v", err)
 		return ExitHalt, pc
@@ -531,7 +531,7 @@ func instLoadI8(interp *Interpreter, pc ProgramCounter, skipLength ProgramCounte
 
 // opcode 54
 func instLoadU16(interp *Interpreter, pc ProgramCounter, skipLength ProgramCounter) (ExitReason, ProgramCounter) {
-	rA, vX, err := decodeOneRegisterAndOneImmediate(interp.Program.InstructionData, pc, skipLength)
+	rA, vX, err := decodeOneRegisterAndOneImmediate(interp.Program.operandCode(), pc, skipLength)
 	if err != nil {
 		pvmLogger.Errorf("instLoadU16 decodeOneRegisterAndOneImmediate error: %v", err)
 		return ExitHalt, pc
@@ -550,7 +550,7 @@ func instLoadU16(interp *Interpreter, pc ProgramCounter, skipLength ProgramCount
 
 // opcode 55
 func instLoadI16(interp *Interpreter, pc ProgramCounter, skipLength ProgramCounter) (ExitReason, ProgramCounter) {
-	rA, vX, err := decodeOneRegisterAndOneImmediate(interp.Program.InstructionData, pc, skipLength)
+	rA, vX, err := decodeOneRegisterAndOneImmediate(interp.Program.operandCode(), pc, skipLength)
 	if err != nil {
 		pvmLogger.Errorf("instLoadI16 decodeOneRegisterAndOneImmediate error: %v", err)
 		return ExitHalt, pc
@@ -573,7 +573,7 @@ func instLoadI16(interp *Interpreter, pc ProgramCounter, skipLength ProgramCount
 
 // opcode 56
 func instLoadU32(interp *Interpreter, pc ProgramCounter, skipLength ProgramCounter) (ExitReason, ProgramCounter) {
-	rA, vX, err := decodeOneRegisterAndOneImmediate(interp.Program.InstructionData, pc, skipLength)
+	rA, vX, err := decodeOneRegisterAndOneImmediate(interp.Program.operandCode(), pc, skipLength)
 	if err != nil {
 		pvmLogger.Errorf("instLoadU32 decodeOneRegisterAndOneImmediate error: %v", err)
 		return ExitHalt, pc
@@ -592,7 +592,7 @@ func instLoadU32(interp *Interpreter, pc ProgramCounter, skipLength ProgramCount
 
 // opcode 57
 func instLoadI32(interp *Interpreter, pc ProgramCounter, skipLength ProgramCounter) (ExitReason, ProgramCounter) {
-	rA, vX, err := decodeOneRegisterAndOneImmediate(interp.Program.InstructionData, pc, skipLength)
+	rA, vX, err := decodeOneRegisterAndOneImmediate(interp.Program.operandCode(), pc, skipLength)
 	if err != nil {
 		pvmLogger.Errorf("instLoadI32 decodeOneRegisterAndOneImmediate error: %v", err)
 		return ExitHalt, pc
@@ -616,7 +616,7 @@ func instLoadI32(interp *Interpreter, pc ProgramCounter, skipLength ProgramCount
 
 // opcode 58
 func instLoadU64(interp *Interpreter, pc ProgramCounter, skipLength ProgramCounter) (ExitReason, ProgramCounter) {
-	rA, vX, err := decodeOneRegisterAndOneImmediate(interp.Program.InstructionData, pc, skipLength)
+	rA, vX, err := decodeOneRegisterAndOneImmediate(interp.Program.operandCode(), pc, skipLength)
 	if err != nil {
 		pvmLogger.Errorf("instLoadU64 decodeOneRegisterAndOneImmediate error: %v", err)
 		return ExitHalt, pc
@@ -635,7 +635,7 @@ func instLoadU64(interp *Interpreter, pc ProgramCounter, skipLength ProgramCount
 
 // opcode 59
 func instStoreU8(interp *Interpreter, pc ProgramCounter, skipLength ProgramCounter) (ExitReason, ProgramCounter) {
-	rA, vX, err := decodeOneRegisterAndOneImmediate(interp.Program.InstructionData, pc, skipLength)
+	rA, vX, err := decodeOneRegisterAndOneImmediate(interp.Program.operandCode(), pc, skipLength)
 	if err != nil {
 		pvmLogger.Errorf("instStoreU8 decodeOneRegisterAndOneImmediate error: %v", err)
 		return ExitHalt, pc
@@ -649,7 +649,7 @@ func instStoreU8(interp *Interpreter, pc ProgramCounter, skipLength ProgramCount
 
 // opcode 60
 func instStoreU16(interp *Interpreter, pc ProgramCounter, skipLength ProgramCounter) (ExitReason, ProgramCounter) {
-	rA, vX, err := decodeOneRegisterAndOneImmediate(interp.Program.InstructionData, pc, skipLength)
+	rA, vX, err := decodeOneRegisterAndOneImmediate(interp.Program.operandCode(), pc, skipLength)
 	if err != nil {
 		pvmLogger.Errorf("instStoreU16 decodeOneRegisterAndOneImmediate error: %v", err)
 		return ExitHalt, pc
@@ -662,7 +662,7 @@ func instStoreU16(interp *Interpreter, pc ProgramCounter, skipLength ProgramCoun
 
 // opcode 61
 func instStoreU32(interp *Interpreter, pc ProgramCounter, skipLength ProgramCounter) (ExitReason, ProgramCounter) {
-	rA, vX, err := decodeOneRegisterAndOneImmediate(interp.Program.InstructionData, pc, skipLength)
+	rA, vX, err := decodeOneRegisterAndOneImmediate(interp.Program.operandCode(), pc, skipLength)
 	if err != nil {
 		pvmLogger.Errorf("instStoreU32 decodeOneRegisterAndOneImmediate error: %v", err)
 		return ExitHalt, pc
@@ -675,7 +675,7 @@ func instStoreU32(interp *Interpreter, pc ProgramCounter, skipLength ProgramCoun
 
 // opcode 62
 func instStoreU64(interp *Interpreter, pc ProgramCounter, skipLength ProgramCounter) (ExitReason, ProgramCounter) {
-	rA, vX, err := decodeOneRegisterAndOneImmediate(interp.Program.InstructionData, pc, skipLength)
+	rA, vX, err := decodeOneRegisterAndOneImmediate(interp.Program.operandCode(), pc, skipLength)
 	if err != nil {
 		pvmLogger.Errorf("instStoreU64 decodeOneRegisterAndOneImmediate error: %v", err)
 		return ExitHalt, pc
@@ -688,7 +688,7 @@ func instStoreU64(interp *Interpreter, pc ProgramCounter, skipLength ProgramCoun
 
 // opcode 70
 func instStoreImmIndU8(interp *Interpreter, pc ProgramCounter, skipLength ProgramCounter) (ExitReason, ProgramCounter) {
-	rA, vX, vY, err := decodeOneRegisterAndTwoImmediates(interp.Program.InstructionData, pc, skipLength)
+	rA, vX, vY, err := decodeOneRegisterAndTwoImmediates(interp.Program.operandCode(), pc, skipLength)
 	if err != nil {
 		pvmLogger.Errorf("instStoreImmIndU8 decodeOneRegisterAndTwoImmediates error: %v", err)
 		return ExitHalt, pc
@@ -701,7 +701,7 @@ func instStoreImmIndU8(interp *Interpreter, pc ProgramCounter, skipLength Progra
 
 // opcode 71
 func instStoreImmIndU16(interp *Interpreter, pc ProgramCounter, skipLength ProgramCounter) (ExitReason, ProgramCounter) {
-	rA, vX, vY, err := decodeOneRegisterAndTwoImmediates(interp.Program.InstructionData, pc, skipLength)
+	rA, vX, vY, err := decodeOneRegisterAndTwoImmediates(interp.Program.operandCode(), pc, skipLength)
 	if err != nil {
 		pvmLogger.Errorf("instStoreImmIndU16 decodeOneRegisterAndTwoImmediates error: %v", err)
 		return ExitHalt, pc
@@ -714,7 +714,7 @@ func instStoreImmIndU16(interp *Interpreter, pc ProgramCounter, skipLength Progr
 
 // opcode 72
 func instStoreImmIndU32(interp *Interpreter, pc ProgramCounter, skipLength ProgramCounter) (ExitReason, ProgramCounter) {
-	rA, vX, vY, err := decodeOneRegisterAndTwoImmediates(interp.Program.InstructionData, pc, skipLength)
+	rA, vX, vY, err := decodeOneRegisterAndTwoImmediates(interp.Program.operandCode(), pc, skipLength)
 	if err != nil {
 		pvmLogger.Errorf("instStoreImmIndU32 decodeOneRegisterAndTwoImmediates error: %v", err)
 		return ExitHalt, pc
@@ -727,7 +727,7 @@ func instStoreImmIndU32(interp *Interpreter, pc ProgramCounter, skipLength Progr
 
 // opcode 73
 func instStoreImmIndU64(interp *Interpreter, pc ProgramCounter, skipLength ProgramCounter) (ExitReason, ProgramCounter) {
-	rA, vX, vY, err := decodeOneRegisterAndTwoImmediates(interp.Program.InstructionData, pc, skipLength)
+	rA, vX, vY, err := decodeOneRegisterAndTwoImmediates(interp.Program.operandCode(), pc, skipLength)
 	if err != nil {
 		pvmLogger.Errorf("instStoreImmIndU64 decodeOneRegisterAndTwoImmediates error: %v", err)
 		return ExitHalt, pc
@@ -740,7 +740,7 @@ func instStoreImmIndU64(interp *Interpreter, pc ProgramCounter, skipLength Progr
 
 // opcode in [80, 90]
 func instImmediateBranch(interp *Interpreter, pc ProgramCounter, skipLength ProgramCounter) (ExitReason, ProgramCounter) {
-	rA, vX, vY, err := decodeOneRegisterOneImmediateAndOneOffset(interp.Program.InstructionData, pc, skipLength)
+	rA, vX, vY, err := decodeOneRegisterOneImmediateAndOneOffset(interp.Program.operandCode(), pc, skipLength)
 	if err != nil {
 		pvmLogger.Errorf("instImmediateBranch decodeOneRegisterOneImmediateAndOneOffset error: %v", err)
 		return ExitHalt, pc
@@ -789,7 +789,7 @@ func instImmediateBranch(interp *Interpreter, pc ProgramCounter, skipLength Prog
 
 // opcode 100
 func instMoveReg(interp *Interpreter, pc ProgramCounter, skipLength ProgramCounter) (ExitReason, ProgramCounter) {
-	rD, rA, err := decodeTwoRegisters(interp.Program.InstructionData, pc)
+	rD, rA, err := decodeTwoRegisters(interp.Program.operandCode(), pc)
 	if err != nil {
 		pvmLogger.Errorf("instMoveReg decodeTwoRegisters error: %v", err)
 		return ExitHalt, pc
@@ -802,7 +802,7 @@ func instMoveReg(interp *Interpreter, pc ProgramCounter, skipLength ProgramCount
 
 // opcode 101
 func instSbrk(interp *Interpreter, pc ProgramCounter, skipLength ProgramCounter) (ExitReason, ProgramCounter) {
-	rD, rA, err := decodeTwoRegisters(interp.Program.InstructionData, pc)
+	rD, rA, err := decodeTwoRegisters(interp.Program.operandCode(), pc)
 	if err != nil {
 		pvmLogger.Errorf("instSbrk decodeTwoRegisters error: %v", err)
 		return ExitHalt, pc
@@ -834,7 +834,7 @@ func instSbrk(interp *Interpreter, pc ProgramCounter, skipLength ProgramCounter)
 
 // opcode 102
 func instCountSetBits64(interp *Interpreter, pc ProgramCounter, skipLength ProgramCounter) (ExitReason, ProgramCounter) {
-	rD, rA, err := decodeTwoRegisters(interp.Program.InstructionData, pc)
+	rD, rA, err := decodeTwoRegisters(interp.Program.operandCode(), pc)
 	if err != nil {
 		pvmLogger.Errorf("instCountSetBits64 decodeTwoRegisters error: %v", err)
 		return ExitHalt, pc
@@ -846,7 +846,7 @@ func instCountSetBits64(interp *Interpreter, pc ProgramCounter, skipLength Progr
 
 // opcode 103
 func instCountSetBits32(interp *Interpreter, pc ProgramCounter, skipLength ProgramCounter) (ExitReason, ProgramCounter) {
-	rD, rA, err := decodeTwoRegisters(interp.Program.InstructionData, pc)
+	rD, rA, err := decodeTwoRegisters(interp.Program.operandCode(), pc)
 	if err != nil {
 		pvmLogger.Errorf("instCountSetBits32 decodeTwoRegisters error: %v", err)
 		return ExitHalt, pc
@@ -858,7 +858,7 @@ func instCountSetBits32(interp *Interpreter, pc ProgramCounter, skipLength Progr
 
 // opcode 104
 func instLeadingZeroBits64(interp *Interpreter, pc ProgramCounter, skipLength ProgramCounter) (ExitReason, ProgramCounter) {
-	rD, rA, err := decodeTwoRegisters(interp.Program.InstructionData, pc)
+	rD, rA, err := decodeTwoRegisters(interp.Program.operandCode(), pc)
 	if err != nil {
 		pvmLogger.Errorf("instLeadingZeroBits64 decodeTwoRegisters error: %v", err)
 		return ExitHalt, pc
@@ -870,7 +870,7 @@ func instLeadingZeroBits64(interp *Interpreter, pc ProgramCounter, skipLength Pr
 
 // opcode 105
 func instLeadingZeroBits32(interp *Interpreter, pc ProgramCounter, skipLength ProgramCounter) (ExitReason, ProgramCounter) {
-	rD, rA, err := decodeTwoRegisters(interp.Program.InstructionData, pc)
+	rD, rA, err := decodeTwoRegisters(interp.Program.operandCode(), pc)
 	if err != nil {
 		pvmLogger.Errorf("instLeadingZeroBits32 decodeTwoRegisters error: %v", err)
 		return ExitHalt, pc
@@ -882,7 +882,7 @@ func instLeadingZeroBits32(interp *Interpreter, pc ProgramCounter, skipLength Pr
 
 // opcode 106
 func instTrailZeroBits64(interp *Interpreter, pc ProgramCounter, skipLength ProgramCounter) (ExitReason, ProgramCounter) {
-	rD, rA, err := decodeTwoRegisters(interp.Program.InstructionData, pc)
+	rD, rA, err := decodeTwoRegisters(interp.Program.operandCode(), pc)
 	if err != nil {
 		pvmLogger.Errorf("instTrailZeroBits64 decodeTwoRegisters error: %v", err)
 		return ExitHalt, pc
@@ -894,7 +894,7 @@ func instTrailZeroBits64(interp *Interpreter, pc ProgramCounter, skipLength Prog
 
 // opcode 107
 func instTrailZeroBits32(interp *Interpreter, pc ProgramCounter, skipLength ProgramCounter) (ExitReason, ProgramCounter) {
-	rD, rA, err := decodeTwoRegisters(interp.Program.InstructionData, pc)
+	rD, rA, err := decodeTwoRegisters(interp.Program.operandCode(), pc)
 	if err != nil {
 		pvmLogger.Errorf("instTrailZeroBits32 decodeTwoRegisters error: %v", err)
 		return ExitHalt, pc
@@ -906,7 +906,7 @@ func instTrailZeroBits32(interp *Interpreter, pc ProgramCounter, skipLength Prog
 
 // opcode 108
 func instSignExtend8(interp *Interpreter, pc ProgramCounter, skipLength ProgramCounter) (ExitReason, ProgramCounter) {
-	rD, rA, err := decodeTwoRegisters(interp.Program.InstructionData, pc)
+	rD, rA, err := decodeTwoRegisters(interp.Program.operandCode(), pc)
 	if err != nil {
 		pvmLogger.Errorf("instSignExtend8 decodeTwoRegisters error: %v", err)
 		return ExitHalt, pc
@@ -923,7 +923,7 @@ func instSignExtend8(interp *Interpreter, pc ProgramCounter, skipLength ProgramC
 
 // opcode 109
 func instSignExtend16(interp *Interpreter, pc ProgramCounter, skipLength ProgramCounter) (ExitReason, ProgramCounter) {
-	rD, rA, err := decodeTwoRegisters(interp.Program.InstructionData, pc)
+	rD, rA, err := decodeTwoRegisters(interp.Program.operandCode(), pc)
 	if err != nil {
 		pvmLogger.Errorf("instSignExtend16 decodeTwoRegisters error: %v", err)
 		return ExitHalt, pc
@@ -940,7 +940,7 @@ func instSignExtend16(interp *Interpreter, pc ProgramCounter, skipLength Program
 
 // opcode 110
 func instZeroExtend16(interp *Interpreter, pc ProgramCounter, skipLength ProgramCounter) (ExitReason, ProgramCounter) {
-	rD, rA, err := decodeTwoRegisters(interp.Program.InstructionData, pc)
+	rD, rA, err := decodeTwoRegisters(interp.Program.operandCode(), pc)
 	if err != nil {
 		pvmLogger.Errorf("instZeroExtend16 decodeTwoRegisters error: %v", err)
 		return ExitHalt, pc
@@ -954,7 +954,7 @@ func instZeroExtend16(interp *Interpreter, pc ProgramCounter, skipLength Program
 
 // opcode 111
 func instReverseBytes(interp *Interpreter, pc ProgramCounter, skipLength ProgramCounter) (ExitReason, ProgramCounter) {
-	rD, rA, err := decodeTwoRegisters(interp.Program.InstructionData, pc)
+	rD, rA, err := decodeTwoRegisters(interp.Program.operandCode(), pc)
 	if err != nil {
 		pvmLogger.Errorf("instReverseBytes decodeTwoRegisters error: %v", err)
 		return ExitHalt, pc
@@ -966,7 +966,7 @@ func instReverseBytes(interp *Interpreter, pc ProgramCounter, skipLength Program
 
 // opcode 120
 func instStoreIndU8(interp *Interpreter, pc ProgramCounter, skipLength ProgramCounter) (ExitReason, ProgramCounter) {
-	rA, rB, vX, err := decodeTwoRegistersAndOneImmediate(interp.Program.InstructionData, pc, skipLength)
+	rA, rB, vX, err := decodeTwoRegistersAndOneImmediate(interp.Program.operandCode(), pc, skipLength)
 	if err != nil {
 		pvmLogger.Errorf("instStoreIndU8 decodeTwoRegistersAndOneImmediate error: %v", err)
 		return ExitHalt, pc
@@ -979,7 +979,7 @@ func instStoreIndU8(interp *Interpreter, pc ProgramCounter, skipLength ProgramCo
 
 // opcode 121
 func instStoreIndU16(interp *Interpreter, pc ProgramCounter, skipLength ProgramCounter) (ExitReason, ProgramCounter) {
-	rA, rB, vX, err := decodeTwoRegistersAndOneImmediate(interp.Program.InstructionData, pc, skipLength)
+	rA, rB, vX, err := decodeTwoRegistersAndOneImmediate(interp.Program.operandCode(), pc, skipLength)
 	if err != nil {
 		pvmLogger.Errorf("instStoreIndU16 decodeTwoRegistersAndOneImmediate error: %v", err)
 		return ExitHalt, pc
@@ -992,7 +992,7 @@ func instStoreIndU16(interp *Interpreter, pc ProgramCounter, skipLength ProgramC
 
 // opcode 122
 func instStoreIndU32(interp *Interpreter, pc ProgramCounter, skipLength ProgramCounter) (ExitReason, ProgramCounter) {
-	rA, rB, vX, err := decodeTwoRegistersAndOneImmediate(interp.Program.InstructionData, pc, skipLength)
+	rA, rB, vX, err := decodeTwoRegistersAndOneImmediate(interp.Program.operandCode(), pc, skipLength)
 	if err != nil {
 		pvmLogger.Errorf("instStoreIndU32 decodeTwoRegistersAndOneImmediate error: %v", err)
 		return ExitHalt, pc
@@ -1005,7 +1005,7 @@ func instStoreIndU32(interp *Interpreter, pc ProgramCounter, skipLength ProgramC
 
 // opcode 123
 func instStoreIndU64(interp *Interpreter, pc ProgramCounter, skipLength ProgramCounter) (ExitReason, ProgramCounter) {
-	rA, rB, vX, err := decodeTwoRegistersAndOneImmediate(interp.Program.InstructionData, pc, skipLength)
+	rA, rB, vX, err := decodeTwoRegistersAndOneImmediate(interp.Program.operandCode(), pc, skipLength)
 	if err != nil {
 		pvmLogger.Errorf("instStoreIndU64 decodeTwoRegistersAndOneImmediate error: %v", err)
 		return ExitHalt, pc
@@ -1019,7 +1019,7 @@ func instStoreIndU64(interp *Interpreter, pc ProgramCounter, skipLength ProgramC
 
 // opcode 124
 func instLoadIndU8(interp *Interpreter, pc ProgramCounter, skipLength ProgramCounter) (ExitReason, ProgramCounter) {
-	rA, rB, vX, err := decodeTwoRegistersAndOneImmediate(interp.Program.InstructionData, pc, skipLength)
+	rA, rB, vX, err := decodeTwoRegistersAndOneImmediate(interp.Program.operandCode(), pc, skipLength)
 	if err != nil {
 		pvmLogger.Errorf("instLoadIndU8 decodeTwoRegistersAndOneImmediate error: %v", err)
 		return ExitHalt, pc
@@ -1038,7 +1038,7 @@ func instLoadIndU8(interp *Interpreter, pc ProgramCounter, skipLength ProgramCou
 
 // opcode 125
 func instLoadIndI8(interp *Interpreter, pc ProgramCounter, skipLength ProgramCounter) (ExitReason, ProgramCounter) {
-	rA, rB, vX, err := decodeTwoRegistersAndOneImmediate(interp.Program.InstructionData, pc, skipLength)
+	rA, rB, vX, err := decodeTwoRegistersAndOneImmediate(interp.Program.operandCode(), pc, skipLength)
 	if err != nil {
 		pvmLogger.Errorf("instLoadIndI8 decodeTwoRegistersAndOneImmediate error: %v", err)
 		return ExitHalt, pc
@@ -1057,7 +1057,7 @@ func instLoadIndI8(interp *Interpreter, pc ProgramCounter, skipLength ProgramCou
 
 // opcode 126
 func instLoadIndU16(interp *Interpreter, pc ProgramCounter, skipLength ProgramCounter) (ExitReason, ProgramCounter) {
-	rA, rB, vX, err := decodeTwoRegistersAndOneImmediate(interp.Program.InstructionData, pc, skipLength)
+	rA, rB, vX, err := decodeTwoRegistersAndOneImmediate(interp.Program.operandCode(), pc, skipLength)
 	if err != nil {
 		pvmLogger.Errorf("instLoadIndU16 decodeTwoRegistersAndOneImmediate error: %v", err)
 		return ExitHalt, pc
@@ -1076,7 +1076,7 @@ func instLoadIndU16(interp *Interpreter, pc ProgramCounter, skipLength ProgramCo
 
 // opcode 127
 func instLoadIndI16(interp *Interpreter, pc ProgramCounter, skipLength ProgramCounter) (ExitReason, ProgramCounter) {
-	rA, rB, vX, err := decodeTwoRegistersAndOneImmediate(interp.Program.InstructionData, pc, skipLength)
+	rA, rB, vX, err := decodeTwoRegistersAndOneImmediate(interp.Program.operandCode(), pc, skipLength)
 	if err != nil {
 		pvmLogger.Errorf("instLoadIndI16 decodeTwoRegistersAndOneImmediate error: %v", err)
 		return ExitHalt, pc
@@ -1095,7 +1095,7 @@ func instLoadIndI16(interp *Interpreter, pc ProgramCounter, skipLength ProgramCo
 
 // opcode 128
 func instLoadIndU32(interp *Interpreter, pc ProgramCounter, skipLength ProgramCounter) (ExitReason, ProgramCounter) {
-	rA, rB, vX, err := decodeTwoRegistersAndOneImmediate(interp.Program.InstructionData, pc, skipLength)
+	rA, rB, vX, err := decodeTwoRegistersAndOneImmediate(interp.Program.operandCode(), pc, skipLength)
 	if err != nil {
 		pvmLogger.Errorf("instLoadIndU32 decodeTwoRegistersAndOneImmediate error: %v", err)
 		return ExitHalt, pc
@@ -1114,7 +1114,7 @@ func instLoadIndU32(interp *Interpreter, pc ProgramCounter, skipLength ProgramCo
 
 // opcode 129
 func instLoadIndI32(interp *Interpreter, pc ProgramCounter, skipLength ProgramCounter) (ExitReason, ProgramCounter) {
-	rA, rB, vX, err := decodeTwoRegistersAndOneImmediate(interp.Program.InstructionData, pc, skipLength)
+	rA, rB, vX, err := decodeTwoRegistersAndOneImmediate(interp.Program.operandCode(), pc, skipLength)
 	if err != nil {
 		pvmLogger.Errorf("instLoadIndI32 decodeTwoRegistersAndOneImmediate error: %v", err)
 		return ExitHalt, pc
@@ -1133,7 +1133,7 @@ func instLoadIndI32(interp *Interpreter, pc ProgramCounter, skipLength ProgramCo
 
 // opcode 130
 func instLoadIndU64(interp *Interpreter, pc ProgramCounter, skipLength ProgramCounter) (ExitReason, ProgramCounter) {
-	rA, rB, vX, err := decodeTwoRegistersAndOneImmediate(interp.Program.InstructionData, pc, skipLength)
+	rA, rB, vX, err := decodeTwoRegistersAndOneImmediate(interp.Program.operandCode(), pc, skipLength)
 	if err != nil {
 		pvmLogger.Errorf("instLoadIndU64 decodeTwoRegistersAndOneImmediate error: %v", err)
 		return ExitHalt, pc
@@ -1152,7 +1152,7 @@ func instLoadIndU64(interp *Interpreter, pc ProgramCounter, skipLength ProgramCo
 
 // opcode 131
 func instAddImm32(interp *Interpreter, pc ProgramCounter, skipLength ProgramCounter) (ExitReason, ProgramCounter) {
-	rA, rB, vX, err := decodeTwoRegistersAndOneImmediate(interp.Program.InstructionData, pc, skipLength)
+	rA, rB, vX, err := decodeTwoRegistersAndOneImmediate(interp.Program.operandCode(), pc, skipLength)
 	if err != nil {
 		pvmLogger.Errorf("instAddImm32 decodeTwoRegistersAndOneImmediate error: %v", err)
 		return ExitHalt, pc
@@ -1169,7 +1169,7 @@ func instAddImm32(interp *Interpreter, pc ProgramCounter, skipLength ProgramCoun
 
 // opcode 132
 func instAndImm(interp *Interpreter, pc ProgramCounter, skipLength ProgramCounter) (ExitReason, ProgramCounter) {
-	rA, rB, vX, err := decodeTwoRegistersAndOneImmediate(interp.Program.InstructionData, pc, skipLength)
+	rA, rB, vX, err := decodeTwoRegistersAndOneImmediate(interp.Program.operandCode(), pc, skipLength)
 	if err != nil {
 		pvmLogger.Errorf("instAndImm decodeTwoRegistersAndOneImmediate error: %v", err)
 		return ExitHalt, pc
@@ -1182,7 +1182,7 @@ func instAndImm(interp *Interpreter, pc ProgramCounter, skipLength ProgramCounte
 
 // opcode 133
 func instXORImm(interp *Interpreter, pc ProgramCounter, skipLength ProgramCounter) (ExitReason, ProgramCounter) {
-	rA, rB, vX, err := decodeTwoRegistersAndOneImmediate(interp.Program.InstructionData, pc, skipLength)
+	rA, rB, vX, err := decodeTwoRegistersAndOneImmediate(interp.Program.operandCode(), pc, skipLength)
 	if err != nil {
 		pvmLogger.Errorf("instXORImm decodeTwoRegistersAndOneImmediate error: %v", err)
 		return ExitHalt, pc
@@ -1195,7 +1195,7 @@ func instXORImm(interp *Interpreter, pc ProgramCounter, skipLength ProgramCounte
 
 // opcode 134
 func instORImm(interp *Interpreter, pc ProgramCounter, skipLength ProgramCounter) (ExitReason, ProgramCounter) {
-	rA, rB, vX, err := decodeTwoRegistersAndOneImmediate(interp.Program.InstructionData, pc, skipLength)
+	rA, rB, vX, err := decodeTwoRegistersAndOneImmediate(interp.Program.operandCode(), pc, skipLength)
 	if err != nil {
 		pvmLogger.Errorf("instORImm decodeTwoRegistersAndOneImmediate error: %v", err)
 		return ExitHalt, pc
@@ -1208,7 +1208,7 @@ func instORImm(interp *Interpreter, pc ProgramCounter, skipLength ProgramCounter
 
 // opcode 135
 func instMulImm32(interp *Interpreter, pc ProgramCounter, skipLength ProgramCounter) (ExitReason, ProgramCounter) {
-	rA, rB, vX, err := decodeTwoRegistersAndOneImmediate(interp.Program.InstructionData, pc, skipLength)
+	rA, rB, vX, err := decodeTwoRegistersAndOneImmediate(interp.Program.operandCode(), pc, skipLength)
 	if err != nil {
 		pvmLogger.Errorf("instMulImm32 decodeTwoRegistersAndOneImmediate error: %v", err)
 		return ExitHalt, pc
@@ -1226,7 +1226,7 @@ func instMulImm32(interp *Interpreter, pc ProgramCounter, skipLength ProgramCoun
 
 // opcode 136
 func instSetLtUImm(interp *Interpreter, pc ProgramCounter, skipLength ProgramCounter) (ExitReason, ProgramCounter) {
-	rA, rB, vX, err := decodeTwoRegistersAndOneImmediate(interp.Program.InstructionData, pc, skipLength)
+	rA, rB, vX, err := decodeTwoRegistersAndOneImmediate(interp.Program.operandCode(), pc, skipLength)
 	if err != nil {
 		pvmLogger.Errorf("instSetLtUImm decodeTwoRegistersAndOneImmediate error: %v", err)
 		return ExitHalt, pc
@@ -1243,7 +1243,7 @@ func instSetLtUImm(interp *Interpreter, pc ProgramCounter, skipLength ProgramCou
 
 // opcode 137
 func instSetLtSImm(interp *Interpreter, pc ProgramCounter, skipLength ProgramCounter) (ExitReason, ProgramCounter) {
-	rA, rB, vX, err := decodeTwoRegistersAndOneImmediate(interp.Program.InstructionData, pc, skipLength)
+	rA, rB, vX, err := decodeTwoRegistersAndOneImmediate(interp.Program.operandCode(), pc, skipLength)
 	if err != nil {
 		pvmLogger.Errorf("instSetLtSImm decodeTwoRegistersAndOneImmediate error: %v", err)
 		return ExitHalt, pc
@@ -1260,7 +1260,7 @@ func instSetLtSImm(interp *Interpreter, pc ProgramCounter, skipLength ProgramCou
 
 // opcode 138
 func instShloLImm32(interp *Interpreter, pc ProgramCounter, skipLength ProgramCounter) (ExitReason, ProgramCounter) {
-	rA, rB, vX, err := decodeTwoRegistersAndOneImmediate(interp.Program.InstructionData, pc, skipLength)
+	rA, rB, vX, err := decodeTwoRegistersAndOneImmediate(interp.Program.operandCode(), pc, skipLength)
 	if err != nil {
 		pvmLogger.Errorf("instShloLImm32 decodeTwoRegistersAndOneImmediate error: %v", err)
 		return ExitHalt, pc
@@ -1279,7 +1279,7 @@ func instShloLImm32(interp *Interpreter, pc ProgramCounter, skipLength ProgramCo
 
 // opcode 139
 func instShloRImm32(interp *Interpreter, pc ProgramCounter, skipLength ProgramCounter) (ExitReason, ProgramCounter) {
-	rA, rB, vX, err := decodeTwoRegistersAndOneImmediate(interp.Program.InstructionData, pc, skipLength)
+	rA, rB, vX, err := decodeTwoRegistersAndOneImmediate(interp.Program.operandCode(), pc, skipLength)
 	if err != nil {
 		pvmLogger.Errorf("instShloRImm32 decodeTwoRegistersAndOneImmediate error: %v", err)
 		return ExitHalt, pc
@@ -1298,7 +1298,7 @@ func instShloRImm32(interp *Interpreter, pc ProgramCounter, skipLength ProgramCo
 
 // opcode 140
 func instSharRImm32(interp *Interpreter, pc ProgramCounter, skipLength ProgramCounter) (ExitReason, ProgramCounter) {
-	rA, rB, vX, err := decodeTwoRegistersAndOneImmediate(interp.Program.InstructionData, pc, skipLength)
+	rA, rB, vX, err := decodeTwoRegistersAndOneImmediate(interp.Program.operandCode(), pc, skipLength)
 	if err != nil {
 		pvmLogger.Errorf("instSharRImm32 decodeTwoRegistersAndOneImmediate error: %v", err)
 		return ExitHalt, pc
@@ -1312,7 +1312,7 @@ func instSharRImm32(interp *Interpreter, pc ProgramCounter, skipLength ProgramCo
 
 // opcode 141
 func instNegAddImm32(interp *Interpreter, pc ProgramCounter, skipLength ProgramCounter) (ExitReason, ProgramCounter) {
-	rA, rB, vX, err := decodeTwoRegistersAndOneImmediate(interp.Program.InstructionData, pc, skipLength)
+	rA, rB, vX, err := decodeTwoRegistersAndOneImmediate(interp.Program.operandCode(), pc, skipLength)
 	if err != nil {
 		pvmLogger.Errorf("instNegAddImm32 decodeTwoRegistersAndOneImmediate error: %v", err)
 		return ExitHalt, pc
@@ -1330,7 +1330,7 @@ func instNegAddImm32(interp *Interpreter, pc ProgramCounter, skipLength ProgramC
 
 // opcode 142
 func instSetGtUImm(interp *Interpreter, pc ProgramCounter, skipLength ProgramCounter) (ExitReason, ProgramCounter) {
-	rA, rB, vX, err := decodeTwoRegistersAndOneImmediate(interp.Program.InstructionData, pc, skipLength)
+	rA, rB, vX, err := decodeTwoRegistersAndOneImmediate(interp.Program.operandCode(), pc, skipLength)
 	if err != nil {
 		pvmLogger.Errorf("instSetGtUImm decodeTwoRegistersAndOneImmediate error: %v", err)
 		return ExitHalt, pc
@@ -1347,7 +1347,7 @@ func instSetGtUImm(interp *Interpreter, pc ProgramCounter, skipLength ProgramCou
 
 // opcode 143
 func instSetGtSImm(interp *Interpreter, pc ProgramCounter, skipLength ProgramCounter) (ExitReason, ProgramCounter) {
-	rA, rB, vX, err := decodeTwoRegistersAndOneImmediate(interp.Program.InstructionData, pc, skipLength)
+	rA, rB, vX, err := decodeTwoRegistersAndOneImmediate(interp.Program.operandCode(), pc, skipLength)
 	if err != nil {
 		pvmLogger.Errorf("instSetGtSImm decodeTwoRegistersAndOneImmediate error: %v", err)
 		return ExitHalt, pc
@@ -1364,7 +1364,7 @@ func instSetGtSImm(interp *Interpreter, pc ProgramCounter, skipLength ProgramCou
 
 // opcode 144
 func instShloLImmAlt32(interp *Interpreter, pc ProgramCounter, skipLength ProgramCounter) (ExitReason, ProgramCounter) {
-	rA, rB, vX, err := decodeTwoRegistersAndOneImmediate(interp.Program.InstructionData, pc, skipLength)
+	rA, rB, vX, err := decodeTwoRegistersAndOneImmediate(interp.Program.operandCode(), pc, skipLength)
 	if err != nil {
 		pvmLogger.Errorf("instShloLImmAlt32 decodeTwoRegistersAndOneImmediate error: %v", err)
 		return ExitHalt, pc
@@ -1381,7 +1381,7 @@ func instShloLImmAlt32(interp *Interpreter, pc ProgramCounter, skipLength Progra
 
 // opcode 145
 func instShloRImmAlt32(interp *Interpreter, pc ProgramCounter, skipLength ProgramCounter) (ExitReason, ProgramCounter) {
-	rA, rB, vX, err := decodeTwoRegistersAndOneImmediate(interp.Program.InstructionData, pc, skipLength)
+	rA, rB, vX, err := decodeTwoRegistersAndOneImmediate(interp.Program.operandCode(), pc, skipLength)
 	if err != nil {
 		pvmLogger.Errorf("instShloRImmAlt32 decodeTwoRegistersAndOneImmediate error: %v", err)
 		return ExitHalt, pc
@@ -1399,7 +1399,7 @@ func instShloRImmAlt32(interp *Interpreter, pc ProgramCounter, skipLength Progra
 
 // opcode 146
 func instSharRImmAlt32(interp *Interpreter, pc ProgramCounter, skipLength ProgramCounter) (ExitReason, ProgramCounter) {
-	rA, rB, vX, err := decodeTwoRegistersAndOneImmediate(interp.Program.InstructionData, pc, skipLength)
+	rA, rB, vX, err := decodeTwoRegistersAndOneImmediate(interp.Program.operandCode(), pc, skipLength)
 	if err != nil {
 		pvmLogger.Errorf("instSharRImmAlt32 decodeTwoRegistersAndOneImmediate error: %v", err)
 		return ExitHalt, pc
@@ -1413,7 +1413,7 @@ func instSharRImmAlt32(interp *Interpreter, pc ProgramCounter, skipLength Progra
 
 // opcode 147
 func instCmovIzImm(interp *Interpreter, pc ProgramCounter, skipLength ProgramCounter) (ExitReason, ProgramCounter) {
-	rA, rB, vX, err := decodeTwoRegistersAndOneImmediate(interp.Program.InstructionData, pc, skipLength)
+	rA, rB, vX, err := decodeTwoRegistersAndOneImmediate(interp.Program.operandCode(), pc, skipLength)
 	if err != nil {
 		pvmLogger.Errorf("instCmovIzImm decodeTwoRegistersAndOneImmediate error: %v", err)
 		return ExitHalt, pc
@@ -1428,7 +1428,7 @@ func instCmovIzImm(interp *Interpreter, pc ProgramCounter, skipLength ProgramCou
 
 // opcode 148
 func instCmovNzImm(interp *Interpreter, pc ProgramCounter, skipLength ProgramCounter) (ExitReason, ProgramCounter) {
-	rA, rB, vX, err := decodeTwoRegistersAndOneImmediate(interp.Program.InstructionData, pc, skipLength)
+	rA, rB, vX, err := decodeTwoRegistersAndOneImmediate(interp.Program.operandCode(), pc, skipLength)
 	if err != nil {
 		pvmLogger.Errorf("instCmovNzImm decodeTwoRegistersAndOneImmediate error: %v", err)
 		return ExitHalt, pc
@@ -1443,7 +1443,7 @@ func instCmovNzImm(interp *Interpreter, pc ProgramCounter, skipLength ProgramCou
 
 // opcode 149
 func instAddImm64(interp *Interpreter, pc ProgramCounter, skipLength ProgramCounter) (ExitReason, ProgramCounter) {
-	rA, rB, vX, err := decodeTwoRegistersAndOneImmediate(interp.Program.InstructionData, pc, skipLength)
+	rA, rB, vX, err := decodeTwoRegistersAndOneImmediate(interp.Program.operandCode(), pc, skipLength)
 	if err != nil {
 		pvmLogger.Errorf("instAddImm64 decodeTwoRegistersAndOneImmediate error: %v", err)
 		return ExitHalt, pc
@@ -1456,7 +1456,7 @@ func instAddImm64(interp *Interpreter, pc ProgramCounter, skipLength ProgramCoun
 
 // opcode 150
 func instMulImm64(interp *Interpreter, pc ProgramCounter, skipLength ProgramCounter) (ExitReason, ProgramCounter) {
-	rA, rB, vX, err := decodeTwoRegistersAndOneImmediate(interp.Program.InstructionData, pc, skipLength)
+	rA, rB, vX, err := decodeTwoRegistersAndOneImmediate(interp.Program.operandCode(), pc, skipLength)
 	if err != nil {
 		pvmLogger.Errorf("instMulImm64 decodeTwoRegistersAndOneImmediate error: %v", err)
 		return ExitHalt, pc
@@ -1469,7 +1469,7 @@ func instMulImm64(interp *Interpreter, pc ProgramCounter, skipLength ProgramCoun
 
 // opcode 151
 func instShloLImm64(interp *Interpreter, pc ProgramCounter, skipLength ProgramCounter) (ExitReason, ProgramCounter) {
-	rA, rB, vX, err := decodeTwoRegistersAndOneImmediate(interp.Program.InstructionData, pc, skipLength)
+	rA, rB, vX, err := decodeTwoRegistersAndOneImmediate(interp.Program.operandCode(), pc, skipLength)
 	if err != nil {
 		pvmLogger.Errorf("instShloLImm64 decodeTwoRegistersAndOneImmediate error: %v", err)
 		return ExitHalt, pc
@@ -1487,7 +1487,7 @@ func instShloLImm64(interp *Interpreter, pc ProgramCounter, skipLength ProgramCo
 
 // opcode 152
 func instShloRImm64(interp *Interpreter, pc ProgramCounter, skipLength ProgramCounter) (ExitReason, ProgramCounter) {
-	rA, rB, vX, err := decodeTwoRegistersAndOneImmediate(interp.Program.InstructionData, pc, skipLength)
+	rA, rB, vX, err := decodeTwoRegistersAndOneImmediate(interp.Program.operandCode(), pc, skipLength)
 	if err != nil {
 		pvmLogger.Errorf("instShloRImm64 decodeTwoRegistersAndOneImmediate error: %v", err)
 		return ExitHalt, pc
@@ -1505,7 +1505,7 @@ func instShloRImm64(interp *Interpreter, pc ProgramCounter, skipLength ProgramCo
 
 // opcode 153
 func instSharRImm64(interp *Interpreter, pc ProgramCounter, skipLength ProgramCounter) (ExitReason, ProgramCounter) {
-	rA, rB, vX, err := decodeTwoRegistersAndOneImmediate(interp.Program.InstructionData, pc, skipLength)
+	rA, rB, vX, err := decodeTwoRegistersAndOneImmediate(interp.Program.operandCode(), pc, skipLength)
 	if err != nil {
 		pvmLogger.Errorf("instSharRImm64 decodeTwoRegistersAndOneImmediate error: %v", err)
 		return ExitHalt, pc
@@ -1518,7 +1518,7 @@ func instSharRImm64(interp *Interpreter, pc ProgramCounter, skipLength ProgramCo
 
 // opcode 154
 func instNegAddImm64(interp *Interpreter, pc ProgramCounter, skipLength ProgramCounter) (ExitReason, ProgramCounter) {
-	rA, rB, vX, err := decodeTwoRegistersAndOneImmediate(interp.Program.InstructionData, pc, skipLength)
+	rA, rB, vX, err := decodeTwoRegistersAndOneImmediate(interp.Program.operandCode(), pc, skipLength)
 	if err != nil {
 		pvmLogger.Errorf("instNegAddImm64 decodeTwoRegistersAndOneImmediate error: %v", err)
 		return ExitHalt, pc
@@ -1531,7 +1531,7 @@ func instNegAddImm64(interp *Interpreter, pc ProgramCounter, skipLength ProgramC
 
 // opcode 155
 func instShloLImmAlt64(interp *Interpreter, pc ProgramCounter, skipLength ProgramCounter) (ExitReason, ProgramCounter) {
-	rA, rB, vX, err := decodeTwoRegistersAndOneImmediate(interp.Program.InstructionData, pc, skipLength)
+	rA, rB, vX, err := decodeTwoRegistersAndOneImmediate(interp.Program.operandCode(), pc, skipLength)
 	if err != nil {
 		pvmLogger.Errorf("instShloLImmAlt64 decodeTwoRegistersAndOneImmediate error: %v", err)
 		return ExitHalt, pc
@@ -1544,7 +1544,7 @@ func instShloLImmAlt64(interp *Interpreter, pc ProgramCounter, skipLength Progra
 
 // opcode 156
 func instShloRImmAlt64(interp *Interpreter, pc ProgramCounter, skipLength ProgramCounter) (ExitReason, ProgramCounter) {
-	rA, rB, vX, err := decodeTwoRegistersAndOneImmediate(interp.Program.InstructionData, pc, skipLength)
+	rA, rB, vX, err := decodeTwoRegistersAndOneImmediate(interp.Program.operandCode(), pc, skipLength)
 	if err != nil {
 		pvmLogger.Errorf("instShloRImmAlt64 decodeTwoRegistersAndOneImmediate error: %v", err)
 		return ExitHalt, pc
@@ -1556,7 +1556,7 @@ func instShloRImmAlt64(interp *Interpreter, pc ProgramCounter, skipLength Progra
 
 // opcode 157
 func instSharRImmAlt64(interp *Interpreter, pc ProgramCounter, skipLength ProgramCounter) (ExitReason, ProgramCounter) {
-	rA, rB, vX, err := decodeTwoRegistersAndOneImmediate(interp.Program.InstructionData, pc, skipLength)
+	rA, rB, vX, err := decodeTwoRegistersAndOneImmediate(interp.Program.operandCode(), pc, skipLength)
 	if err != nil {
 		pvmLogger.Errorf("instSharRImmAlt64 decodeTwoRegistersAndOneImmediate error: %v", err)
 		return ExitHalt, pc
@@ -1568,7 +1568,7 @@ func instSharRImmAlt64(interp *Interpreter, pc ProgramCounter, skipLength Progra
 
 // opcode 158
 func instRotR64Imm(interp *Interpreter, pc ProgramCounter, skipLength ProgramCounter) (ExitReason, ProgramCounter) {
-	rA, rB, vX, err := decodeTwoRegistersAndOneImmediate(interp.Program.InstructionData, pc, skipLength)
+	rA, rB, vX, err := decodeTwoRegistersAndOneImmediate(interp.Program.operandCode(), pc, skipLength)
 	if err != nil {
 		pvmLogger.Errorf("instRotR64Imm decodeTwoRegistersAndOneImmediate error: %v", err)
 		return ExitHalt, pc
@@ -1583,7 +1583,7 @@ func instRotR64Imm(interp *Interpreter, pc ProgramCounter, skipLength ProgramCou
 
 // opcode 159
 func instRotR64ImmAlt(interp *Interpreter, pc ProgramCounter, skipLength ProgramCounter) (ExitReason, ProgramCounter) {
-	rA, rB, vX, err := decodeTwoRegistersAndOneImmediate(interp.Program.InstructionData, pc, skipLength)
+	rA, rB, vX, err := decodeTwoRegistersAndOneImmediate(interp.Program.operandCode(), pc, skipLength)
 	if err != nil {
 		pvmLogger.Errorf("instRotR64ImmAlt decodeTwoRegistersAndOneImmediate error: %v", err)
 		return ExitHalt, pc
@@ -1597,7 +1597,7 @@ func instRotR64ImmAlt(interp *Interpreter, pc ProgramCounter, skipLength Program
 
 // opcode 160
 func instRotR32Imm(interp *Interpreter, pc ProgramCounter, skipLength ProgramCounter) (ExitReason, ProgramCounter) {
-	rA, rB, vX, err := decodeTwoRegistersAndOneImmediate(interp.Program.InstructionData, pc, skipLength)
+	rA, rB, vX, err := decodeTwoRegistersAndOneImmediate(interp.Program.operandCode(), pc, skipLength)
 	if err != nil {
 		pvmLogger.Errorf("instRotR32Imm decodeTwoRegistersAndOneImmediate error: %v", err)
 		return ExitHalt, pc
@@ -1618,7 +1618,7 @@ func instRotR32Imm(interp *Interpreter, pc ProgramCounter, skipLength ProgramCou
 
 // opcode 161
 func instRotR32ImmAlt(interp *Interpreter, pc ProgramCounter, skipLength ProgramCounter) (ExitReason, ProgramCounter) {
-	rA, rB, vX, err := decodeTwoRegistersAndOneImmediate(interp.Program.InstructionData, pc, skipLength)
+	rA, rB, vX, err := decodeTwoRegistersAndOneImmediate(interp.Program.operandCode(), pc, skipLength)
 	if err != nil {
 		pvmLogger.Errorf("instRotR32ImmAlt decodeTwoRegistersAndOneImmediate error: %v", err)
 		return ExitHalt, pc
@@ -1639,7 +1639,7 @@ func instRotR32ImmAlt(interp *Interpreter, pc ProgramCounter, skipLength Program
 
 // opcode in [170, 175]
 func instBranch(interp *Interpreter, pc ProgramCounter, skipLength ProgramCounter) (ExitReason, ProgramCounter) {
-	rA, rB, vX, err := decodeTwoRegistersAndOneOffset(interp.Program.InstructionData, pc, skipLength)
+	rA, rB, vX, err := decodeTwoRegistersAndOneOffset(interp.Program.operandCode(), pc, skipLength)
 	if err != nil {
 		return ExitHalt, pc
 	}
@@ -1676,7 +1676,7 @@ func instBranch(interp *Interpreter, pc ProgramCounter, skipLength ProgramCounte
 
 // opcode 180
 func instLoadImmJumpInd(interp *Interpreter, pc ProgramCounter, skipLength ProgramCounter) (ExitReason, ProgramCounter) {
-	rA, rB, vX, vY, err := decodeTwoRegistersAndTwoImmediates(interp.Program.InstructionData, pc, skipLength)
+	rA, rB, vX, vY, err := decodeTwoRegistersAndTwoImmediates(interp.Program.operandCode(), pc, skipLength)
 	if err != nil {
 		pvmLogger.Errorf("instLoadImmJumpInd decodeTwoRegistersAndTwoImmediates error: %v", err)
 		return ExitPanic, pc
@@ -1699,7 +1699,7 @@ func instLoadImmJumpInd(interp *Interpreter, pc ProgramCounter, skipLength Progr
 
 // opcode 190
 func instAdd32(interp *Interpreter, pc ProgramCounter, skipLength ProgramCounter) (ExitReason, ProgramCounter) {
-	rA, rB, rD, err := decodeThreeRegisters(interp.Program.InstructionData, pc)
+	rA, rB, rD, err := decodeThreeRegisters(interp.Program.operandCode(), pc)
 	if err != nil {
 		pvmLogger.Errorf("instAdd32 decodeThreeRegisters error: %v", err)
 		return ExitHalt, pc
@@ -1716,7 +1716,7 @@ func instAdd32(interp *Interpreter, pc ProgramCounter, skipLength ProgramCounter
 
 // opcode 191
 func instSub32(interp *Interpreter, pc ProgramCounter, skipLength ProgramCounter) (ExitReason, ProgramCounter) {
-	rA, rB, rD, err := decodeThreeRegisters(interp.Program.InstructionData, pc)
+	rA, rB, rD, err := decodeThreeRegisters(interp.Program.operandCode(), pc)
 	if err != nil {
 		pvmLogger.Errorf("instSub32 decodeThreeRegisters error: %v", err)
 		return ExitHalt, pc
@@ -1734,7 +1734,7 @@ func instSub32(interp *Interpreter, pc ProgramCounter, skipLength ProgramCounter
 
 // opcode 192
 func instMul32(interp *Interpreter, pc ProgramCounter, skipLength ProgramCounter) (ExitReason, ProgramCounter) {
-	rA, rB, rD, err := decodeThreeRegisters(interp.Program.InstructionData, pc)
+	rA, rB, rD, err := decodeThreeRegisters(interp.Program.operandCode(), pc)
 	if err != nil {
 		pvmLogger.Errorf("instMul32 decodeThreeRegisters error: %v", err)
 		return ExitHalt, pc
@@ -1751,7 +1751,7 @@ func instMul32(interp *Interpreter, pc ProgramCounter, skipLength ProgramCounter
 
 // opcode 193
 func instDivU32(interp *Interpreter, pc ProgramCounter, skipLength ProgramCounter) (ExitReason, ProgramCounter) {
-	rA, rB, rD, err := decodeThreeRegisters(interp.Program.InstructionData, pc)
+	rA, rB, rD, err := decodeThreeRegisters(interp.Program.operandCode(), pc)
 	if err != nil {
 		pvmLogger.Errorf("instDivU32 decodeThreeRegisters error: %v", err)
 		return ExitHalt, pc
@@ -1776,7 +1776,7 @@ func instDivU32(interp *Interpreter, pc ProgramCounter, skipLength ProgramCounte
 
 // opcode 194
 func instDivS32(interp *Interpreter, pc ProgramCounter, skipLength ProgramCounter) (ExitReason, ProgramCounter) {
-	rA, rB, rD, err := decodeThreeRegisters(interp.Program.InstructionData, pc)
+	rA, rB, rD, err := decodeThreeRegisters(interp.Program.operandCode(), pc)
 	if err != nil {
 		pvmLogger.Errorf("instDivS32 decodeThreeRegisters error: %v", err)
 		return ExitHalt, pc
@@ -1797,7 +1797,7 @@ func instDivS32(interp *Interpreter, pc ProgramCounter, skipLength ProgramCounte
 
 // opcode 195
 func instRemU32(interp *Interpreter, pc ProgramCounter, skipLength ProgramCounter) (ExitReason, ProgramCounter) {
-	rA, rB, rD, err := decodeThreeRegisters(interp.Program.InstructionData, pc)
+	rA, rB, rD, err := decodeThreeRegisters(interp.Program.operandCode(), pc)
 	if err != nil {
 		pvmLogger.Errorf("instRemU32 decodeThreeRegisters error: %v", err)
 		return ExitHalt, pc
@@ -1820,7 +1820,7 @@ func instRemU32(interp *Interpreter, pc ProgramCounter, skipLength ProgramCounte
 
 // opcode 196
 func instRemS32(interp *Interpreter, pc ProgramCounter, skipLength ProgramCounter) (ExitReason, ProgramCounter) {
-	rA, rB, rD, err := decodeThreeRegisters(interp.Program.InstructionData, pc)
+	rA, rB, rD, err := decodeThreeRegisters(interp.Program.operandCode(), pc)
 	if err != nil {
 		pvmLogger.Errorf("instRemS32 decodeThreeRegisters error: %v", err)
 		return ExitHalt, pc
@@ -1840,7 +1840,7 @@ func instRemS32(interp *Interpreter, pc ProgramCounter, skipLength ProgramCounte
 
 // opcode 197
 func instShloL32(interp *Interpreter, pc ProgramCounter, skipLength ProgramCounter) (ExitReason, ProgramCounter) {
-	rA, rB, rD, err := decodeThreeRegisters(interp.Program.InstructionData, pc)
+	rA, rB, rD, err := decodeThreeRegisters(interp.Program.operandCode(), pc)
 	if err != nil {
 		pvmLogger.Errorf("instShloL32 decodeThreeRegisters error: %v", err)
 		return ExitHalt, pc
@@ -1857,7 +1857,7 @@ func instShloL32(interp *Interpreter, pc ProgramCounter, skipLength ProgramCount
 
 // opcode 198
 func instShloR32(interp *Interpreter, pc ProgramCounter, skipLength ProgramCounter) (ExitReason, ProgramCounter) {
-	rA, rB, rD, err := decodeThreeRegisters(interp.Program.InstructionData, pc)
+	rA, rB, rD, err := decodeThreeRegisters(interp.Program.operandCode(), pc)
 	if err != nil {
 		pvmLogger.Errorf("instShloR32 decodeThreeRegisters error: %v", err)
 		return ExitHalt, pc
@@ -1876,7 +1876,7 @@ func instShloR32(interp *Interpreter, pc ProgramCounter, skipLength ProgramCount
 
 // opcode 199
 func instSharR32(interp *Interpreter, pc ProgramCounter, skipLength ProgramCounter) (ExitReason, ProgramCounter) {
-	rA, rB, rD, err := decodeThreeRegisters(interp.Program.InstructionData, pc)
+	rA, rB, rD, err := decodeThreeRegisters(interp.Program.operandCode(), pc)
 	if err != nil {
 		pvmLogger.Errorf("instSharR32 decodeThreeRegisters error: %v", err)
 		return ExitHalt, pc
@@ -1892,7 +1892,7 @@ func instSharR32(interp *Interpreter, pc ProgramCounter, skipLength ProgramCount
 
 // opcode 200
 func instAdd64(interp *Interpreter, pc ProgramCounter, skipLength ProgramCounter) (ExitReason, ProgramCounter) {
-	rA, rB, rD, err := decodeThreeRegisters(interp.Program.InstructionData, pc)
+	rA, rB, rD, err := decodeThreeRegisters(interp.Program.operandCode(), pc)
 	if err != nil {
 		pvmLogger.Errorf("instAdd64 decodeThreeRegisters error: %v", err)
 		return ExitHalt, pc
@@ -1905,7 +1905,7 @@ func instAdd64(interp *Interpreter, pc ProgramCounter, skipLength ProgramCounter
 
 // opcode 201
 func instSub64(interp *Interpreter, pc ProgramCounter, skipLength ProgramCounter) (ExitReason, ProgramCounter) {
-	rA, rB, rD, err := decodeThreeRegisters(interp.Program.InstructionData, pc)
+	rA, rB, rD, err := decodeThreeRegisters(interp.Program.operandCode(), pc)
 	if err != nil {
 		pvmLogger.Errorf("instSub64 decodeThreeRegisters error: %v", err)
 		return ExitHalt, pc
@@ -1918,7 +1918,7 @@ func instSub64(interp *Interpreter, pc ProgramCounter, skipLength ProgramCounter
 
 // opcode 202
 func instMul64(interp *Interpreter, pc ProgramCounter, skipLength ProgramCounter) (ExitReason, ProgramCounter) {
-	rA, rB, rD, err := decodeThreeRegisters(interp.Program.InstructionData, pc)
+	rA, rB, rD, err := decodeThreeRegisters(interp.Program.operandCode(), pc)
 	if err != nil {
 		pvmLogger.Errorf("instMul64 decodeThreeRegisters error: %v", err)
 		return ExitHalt, pc
@@ -1931,7 +1931,7 @@ func instMul64(interp *Interpreter, pc ProgramCounter, skipLength ProgramCounter
 
 // opcode 203
 func instDivU64(interp *Interpreter, pc ProgramCounter, skipLength ProgramCounter) (ExitReason, ProgramCounter) {
-	rA, rB, rD, err := decodeThreeRegisters(interp.Program.InstructionData, pc)
+	rA, rB, rD, err := decodeThreeRegisters(interp.Program.operandCode(), pc)
 	if err != nil {
 		pvmLogger.Errorf("instDivU64 decodeThreeRegisters error: %v", err)
 		return ExitHalt, pc
@@ -1948,7 +1948,7 @@ func instDivU64(interp *Interpreter, pc ProgramCounter, skipLength ProgramCounte
 
 // opcode 204
 func instDivS64(interp *Interpreter, pc ProgramCounter, skipLength ProgramCounter) (ExitReason, ProgramCounter) {
-	rA, rB, rD, err := decodeThreeRegisters(interp.Program.InstructionData, pc)
+	rA, rB, rD, err := decodeThreeRegisters(interp.Program.operandCode(), pc)
 	if err != nil {
 		pvmLogger.Errorf("instDivS64 decodeThreeRegisters error: %v", err)
 		return ExitHalt, pc
@@ -1967,7 +1967,7 @@ func instDivS64(interp *Interpreter, pc ProgramCounter, skipLength ProgramCounte
 
 // opcode 205
 func instRemU64(interp *Interpreter, pc ProgramCounter, skipLength ProgramCounter) (ExitReason, ProgramCounter) {
-	rA, rB, rD, err := decodeThreeRegisters(interp.Program.InstructionData, pc)
+	rA, rB, rD, err := decodeThreeRegisters(interp.Program.operandCode(), pc)
 	if err != nil {
 		pvmLogger.Errorf("instRemU64 decodeThreeRegisters error:%v", err)
 		return ExitHalt, pc
@@ -1984,7 +1984,7 @@ func instRemU64(interp *Interpreter, pc ProgramCounter, skipLength ProgramCounte
 
 // opcode 206
 func instRemS64(interp *Interpreter, pc ProgramCounter, skipLength ProgramCounter) (ExitReason, ProgramCounter) {
-	rA, rB, rD, err := decodeThreeRegisters(interp.Program.InstructionData, pc)
+	rA, rB, rD, err := decodeThreeRegisters(interp.Program.operandCode(), pc)
 	if err != nil {
 		pvmLogger.Errorf("instRemS64 decodeThreeRegisters error:%v", err)
 		return ExitHalt, pc
@@ -2001,7 +2001,7 @@ func instRemS64(interp *Interpreter, pc ProgramCounter, skipLength ProgramCounte
 
 // opcode 207
 func instShloL64(interp *Interpreter, pc ProgramCounter, skipLength ProgramCounter) (ExitReason, ProgramCounter) {
-	rA, rB, rD, err := decodeThreeRegisters(interp.Program.InstructionData, pc)
+	rA, rB, rD, err := decodeThreeRegisters(interp.Program.operandCode(), pc)
 	if err != nil {
 		pvmLogger.Errorf("instShloL64 decodeThreeRegisters error:%v", err)
 		return ExitHalt, pc
@@ -2014,7 +2014,7 @@ func instShloL64(interp *Interpreter, pc ProgramCounter, skipLength ProgramCount
 
 // opcode 208
 func instShloR64(interp *Interpreter, pc ProgramCounter, skipLength ProgramCounter) (ExitReason, ProgramCounter) {
-	rA, rB, rD, err := decodeThreeRegisters(interp.Program.InstructionData, pc)
+	rA, rB, rD, err := decodeThreeRegisters(interp.Program.operandCode(), pc)
 	if err != nil {
 		pvmLogger.Errorf("instShloR64 decodeThreeRegisters error:%v", err)
 		return ExitHalt, pc
@@ -2027,7 +2027,7 @@ func instShloR64(interp *Interpreter, pc ProgramCounter, skipLength ProgramCount
 
 // opcode 209
 func instSharR64(interp *Interpreter, pc ProgramCounter, skipLength ProgramCounter) (ExitReason, ProgramCounter) {
-	rA, rB, rD, err := decodeThreeRegisters(interp.Program.InstructionData, pc)
+	rA, rB, rD, err := decodeThreeRegisters(interp.Program.operandCode(), pc)
 	if err != nil {
 		pvmLogger.Errorf("instSharR64 decodeThreeRegisters error:%v", err)
 		return ExitHalt, pc
@@ -2040,7 +2040,7 @@ func instSharR64(interp *Interpreter, pc ProgramCounter, skipLength ProgramCount
 
 // opcode 210
 func instAnd(interp *Interpreter, pc ProgramCounter, skipLength ProgramCounter) (ExitReason, ProgramCounter) {
-	rA, rB, rD, err := decodeThreeRegisters(interp.Program.InstructionData, pc)
+	rA, rB, rD, err := decodeThreeRegisters(interp.Program.operandCode(), pc)
 	if err != nil {
 		pvmLogger.Errorf("instAnd decodeThreeRegisters error:%v", err)
 		return ExitHalt, pc
@@ -2053,7 +2053,7 @@ func instAnd(interp *Interpreter, pc ProgramCounter, skipLength ProgramCounter) 
 
 // opcode 211
 func instXor(interp *Interpreter, pc ProgramCounter, skipLength ProgramCounter) (ExitReason, ProgramCounter) {
-	rA, rB, rD, err := decodeThreeRegisters(interp.Program.InstructionData, pc)
+	rA, rB, rD, err := decodeThreeRegisters(interp.Program.operandCode(), pc)
 	if err != nil {
 		pvmLogger.Errorf("instXor decodeThreeRegisters error:%v", err)
 		return ExitHalt, pc
@@ -2066,7 +2066,7 @@ func instXor(interp *Interpreter, pc ProgramCounter, skipLength ProgramCounter) 
 
 // opcode 212
 func instOr(interp *Interpreter, pc ProgramCounter, skipLength ProgramCounter) (ExitReason, ProgramCounter) {
-	rA, rB, rD, err := decodeThreeRegisters(interp.Program.InstructionData, pc)
+	rA, rB, rD, err := decodeThreeRegisters(interp.Program.operandCode(), pc)
 	if err != nil {
 		pvmLogger.Errorf("instOr decodeThreeRegisters error:%v", err)
 		return ExitHalt, pc
@@ -2079,7 +2079,7 @@ func instOr(interp *Interpreter, pc ProgramCounter, skipLength ProgramCounter) (
 
 // opcode 213
 func instMulUpperSS(interp *Interpreter, pc ProgramCounter, skipLength ProgramCounter) (ExitReason, ProgramCounter) {
-	rA, rB, rD, err := decodeThreeRegisters(interp.Program.InstructionData, pc)
+	rA, rB, rD, err := decodeThreeRegisters(interp.Program.operandCode(), pc)
 	if err != nil {
 		pvmLogger.Errorf("instMulUpperSS decodeThreeRegisters error:%v", err)
 		return ExitHalt, pc
@@ -2105,7 +2105,7 @@ func instMulUpperSS(interp *Interpreter, pc ProgramCounter, skipLength ProgramCo
 
 // opcode 214
 func instMulUpperUU(interp *Interpreter, pc ProgramCounter, skipLength ProgramCounter) (ExitReason, ProgramCounter) {
-	rA, rB, rD, err := decodeThreeRegisters(interp.Program.InstructionData, pc)
+	rA, rB, rD, err := decodeThreeRegisters(interp.Program.operandCode(), pc)
 	if err != nil {
 		pvmLogger.Errorf("instMulUpperUU decodeThreeRegisters error:%v", err)
 		return ExitHalt, pc
@@ -2119,7 +2119,7 @@ func instMulUpperUU(interp *Interpreter, pc ProgramCounter, skipLength ProgramCo
 
 // opcode 215
 func instMulUpperSU(interp *Interpreter, pc ProgramCounter, skipLength ProgramCounter) (ExitReason, ProgramCounter) {
-	rA, rB, rD, err := decodeThreeRegisters(interp.Program.InstructionData, pc)
+	rA, rB, rD, err := decodeThreeRegisters(interp.Program.operandCode(), pc)
 	if err != nil {
 		pvmLogger.Errorf("instMulUpperSU decodeThreeRegisters error:%v", err)
 		return ExitHalt, pc
@@ -2144,7 +2144,7 @@ func instMulUpperSU(interp *Interpreter, pc ProgramCounter, skipLength ProgramCo
 
 // opcode 216
 func instSetLtU(interp *Interpreter, pc ProgramCounter, skipLength ProgramCounter) (ExitReason, ProgramCounter) {
-	rA, rB, rD, err := decodeThreeRegisters(interp.Program.InstructionData, pc)
+	rA, rB, rD, err := decodeThreeRegisters(interp.Program.operandCode(), pc)
 	if err != nil {
 		pvmLogger.Errorf("instSetLtU decodeThreeRegisters error:%v", err)
 		return ExitHalt, pc
@@ -2161,7 +2161,7 @@ func instSetLtU(interp *Interpreter, pc ProgramCounter, skipLength ProgramCounte
 
 // opcode 217
 func instSetLtS(interp *Interpreter, pc ProgramCounter, skipLength ProgramCounter) (ExitReason, ProgramCounter) {
-	rA, rB, rD, err := decodeThreeRegisters(interp.Program.InstructionData, pc)
+	rA, rB, rD, err := decodeThreeRegisters(interp.Program.operandCode(), pc)
 	if err != nil {
 		pvmLogger.Errorf("instSetLts decodeThreeRegisters error:%v", err)
 		return ExitHalt, pc
@@ -2178,7 +2178,7 @@ func instSetLtS(interp *Interpreter, pc ProgramCounter, skipLength ProgramCounte
 
 // opcode 218
 func instCmovIz(interp *Interpreter, pc ProgramCounter, skipLength ProgramCounter) (ExitReason, ProgramCounter) {
-	rA, rB, rD, err := decodeThreeRegisters(interp.Program.InstructionData, pc)
+	rA, rB, rD, err := decodeThreeRegisters(interp.Program.operandCode(), pc)
 	if err != nil {
 		pvmLogger.Errorf("instCmovIz decodeThreeRegisters error:%v", err)
 		return ExitHalt, pc
@@ -2193,7 +2193,7 @@ func instCmovIz(interp *Interpreter, pc ProgramCounter, skipLength ProgramCounte
 
 // opcode 219
 func instCmovNz(interp *Interpreter, pc ProgramCounter, skipLength ProgramCounter) (ExitReason, ProgramCounter) {
-	rA, rB, rD, err := decodeThreeRegisters(interp.Program.InstructionData, pc)
+	rA, rB, rD, err := decodeThreeRegisters(interp.Program.operandCode(), pc)
 	if err != nil {
 		pvmLogger.Errorf("instCmovNz decodeThreeRegisters error:%v", err)
 		return ExitHalt, pc
@@ -2208,7 +2208,7 @@ func instCmovNz(interp *Interpreter, pc ProgramCounter, skipLength ProgramCounte
 
 // opcode 220
 func instRotL64(interp *Interpreter, pc ProgramCounter, skipLength ProgramCounter) (ExitReason, ProgramCounter) {
-	rA, rB, rD, err := decodeThreeRegisters(interp.Program.InstructionData, pc)
+	rA, rB, rD, err := decodeThreeRegisters(interp.Program.operandCode(), pc)
 	if err != nil {
 		pvmLogger.Errorf("instRotL64 decodeThreeRegisters error:%v", err)
 		return ExitHalt, pc
@@ -2221,7 +2221,7 @@ func instRotL64(interp *Interpreter, pc ProgramCounter, skipLength ProgramCounte
 
 // opcode 221
 func instRotL32(interp *Interpreter, pc ProgramCounter, skipLength ProgramCounter) (ExitReason, ProgramCounter) {
-	rA, rB, rD, err := decodeThreeRegisters(interp.Program.InstructionData, pc)
+	rA, rB, rD, err := decodeThreeRegisters(interp.Program.operandCode(), pc)
 	if err != nil {
 		pvmLogger.Errorf("instRotL32 decodeThreeRegisters error:%v", err)
 		return ExitHalt, pc
@@ -2240,7 +2240,7 @@ func instRotL32(interp *Interpreter, pc ProgramCounter, skipLength ProgramCounte
 
 // opcode 222
 func instRotR64(interp *Interpreter, pc ProgramCounter, skipLength ProgramCounter) (ExitReason, ProgramCounter) {
-	rA, rB, rD, err := decodeThreeRegisters(interp.Program.InstructionData, pc)
+	rA, rB, rD, err := decodeThreeRegisters(interp.Program.operandCode(), pc)
 	if err != nil {
 		pvmLogger.Errorf("instRotR64 decodeThreeRegisters error:%v", err)
 		return ExitHalt, pc
@@ -2253,7 +2253,7 @@ func instRotR64(interp *Interpreter, pc ProgramCounter, skipLength ProgramCounte
 
 // opcode 223
 func instRotR32(interp *Interpreter, pc ProgramCounter, skipLength ProgramCounter) (ExitReason, ProgramCounter) {
-	rA, rB, rD, err := decodeThreeRegisters(interp.Program.InstructionData, pc)
+	rA, rB, rD, err := decodeThreeRegisters(interp.Program.operandCode(), pc)
 	if err != nil {
 		pvmLogger.Errorf("instRotR32 decodeThreeRegisters error:%v", err)
 		return ExitHalt, pc
@@ -2272,7 +2272,7 @@ func instRotR32(interp *Interpreter, pc ProgramCounter, skipLength ProgramCounte
 
 // opcode 224
 func instAndInv(interp *Interpreter, pc ProgramCounter, skipLength ProgramCounter) (ExitReason, ProgramCounter) {
-	rA, rB, rD, err := decodeThreeRegisters(interp.Program.InstructionData, pc)
+	rA, rB, rD, err := decodeThreeRegisters(interp.Program.operandCode(), pc)
 	if err != nil {
 		pvmLogger.Errorf("instAndInv decodeThreeRegisters error:%v", err)
 		return ExitHalt, pc
@@ -2285,7 +2285,7 @@ func instAndInv(interp *Interpreter, pc ProgramCounter, skipLength ProgramCounte
 
 // opcode 225
 func instOrInv(interp *Interpreter, pc ProgramCounter, skipLength ProgramCounter) (ExitReason, ProgramCounter) {
-	rA, rB, rD, err := decodeThreeRegisters(interp.Program.InstructionData, pc)
+	rA, rB, rD, err := decodeThreeRegisters(interp.Program.operandCode(), pc)
 	if err != nil {
 		pvmLogger.Errorf("instOrInv decodeThreeRegisters error:%v", err)
 		return ExitHalt, pc
@@ -2298,7 +2298,7 @@ func instOrInv(interp *Interpreter, pc ProgramCounter, skipLength ProgramCounter
 
 // opcode 226
 func instXnor(interp *Interpreter, pc ProgramCounter, skipLength ProgramCounter) (ExitReason, ProgramCounter) {
-	rA, rB, rD, err := decodeThreeRegisters(interp.Program.InstructionData, pc)
+	rA, rB, rD, err := decodeThreeRegisters(interp.Program.operandCode(), pc)
 	if err != nil {
 		pvmLogger.Errorf("instXnor decodeThreeRegisters error:%v", err)
 		return ExitHalt, pc
@@ -2311,7 +2311,7 @@ func instXnor(interp *Interpreter, pc ProgramCounter, skipLength ProgramCounter)
 
 // opcode 227
 func instMax(interp *Interpreter, pc ProgramCounter, skipLength ProgramCounter) (ExitReason, ProgramCounter) {
-	rA, rB, rD, err := decodeThreeRegisters(interp.Program.InstructionData, pc)
+	rA, rB, rD, err := decodeThreeRegisters(interp.Program.operandCode(), pc)
 	if err != nil {
 		pvmLogger.Errorf("instMax decodeThreeRegisters error:%v", err)
 		return ExitHalt, pc
@@ -2325,7 +2325,7 @@ func instMax(interp *Interpreter, pc ProgramCounter, skipLength ProgramCounter) 
 
 // opcode 228
 func instMaxU(interp *Interpreter, pc ProgramCounter, skipLength ProgramCounter) (ExitReason, ProgramCounter) {
-	rA, rB, rD, err := decodeThreeRegisters(interp.Program.InstructionData, pc)
+	rA, rB, rD, err := decodeThreeRegisters(interp.Program.operandCode(), pc)
 	if err != nil {
 		pvmLogger.Errorf("instMaxU decodeThreeRegisters error:%v", err)
 		return ExitHalt, pc
@@ -2343,7 +2343,7 @@ func instMaxU(interp *Interpreter, pc ProgramCounter, skipLength ProgramCounter)
 
 // opcode 229
 func instMin(interp *Interpreter, pc ProgramCounter, skipLength ProgramCounter) (ExitReason, ProgramCounter) {
-	rA, rB, rD, err := decodeThreeRegisters(interp.Program.InstructionData, pc)
+	rA, rB, rD, err := decodeThreeRegisters(interp.Program.operandCode(), pc)
 	if err != nil {
 		pvmLogger.Errorf(" decodeThreeRegisters error:%v", err)
 		return ExitHalt, pc
@@ -2357,7 +2357,7 @@ func instMin(interp *Interpreter, pc ProgramCounter, skipLength ProgramCounter) 
 
 // opcode 230
 func instMinU(interp *Interpreter, pc ProgramCounter, skipLength ProgramCounter) (ExitReason, ProgramCounter) {
-	rA, rB, rD, err := decodeThreeRegisters(interp.Program.InstructionData, pc)
+	rA, rB, rD, err := decodeThreeRegisters(interp.Program.operandCode(), pc)
 	if err != nil {
 		pvmLogger.Errorf("instMinU decodeThreeRegisters error:%v", err)
 		return ExitHalt, pc
